@@ -62,6 +62,7 @@ def cvc5_check(smt2, timeout_s=10):
 
 def run_job(job, timeout_ms=10000, second_opinion=False):
     from . import symex
+    from . import npvec  # noqa: F401  (patches the vector semantics into Exec)
     import z3
     t0 = time.time()
     out = {"tag": job.tag, "func": job.func, "module": job.module, "results": [], "error": None,
@@ -110,7 +111,7 @@ def run_job(job, timeout_ms=10000, second_opinion=False):
         for o in obls:
             if job.expect == "refuted" and any(r["status"] == "refuted" for r in out["results"]):
                 break
-            symex.discharge(o, timeout_ms)
+            symex.discharge(o, getattr(job.contract, "timeout_ms", None) or timeout_ms)
             if o.status == "undecided":
                 if symex.small_scope(o) is None:
                     r = cvc5_check(o.smt2, timeout_ms // 1000)
